@@ -974,8 +974,17 @@ impl Compactor {
         let retention_nanos = self.config.retention_days as i64 * 24 * 3600 * 1_000_000_000;
         let cutoff = self.clock.retention_cutoff_nanos(retention_nanos);
 
-        // Find chunks older than retention period
-        let old_chunks = self.metadata.get_chunks(TimeRange::new(0, cutoff)).await?;
+        // Find chunks older than retention period. Candidates are all chunks
+        // that start at or before the cut-off (also before the epoch); a chunk
+        // has expired only when its newest row is older than the cut-off, so a
+        // chunk that straddles the cut-off is kept until all of it is old.
+        let old_chunks: Vec<_> = self
+            .metadata
+            .get_chunks(TimeRange::new(i64::MIN, cutoff))
+            .await?
+            .into_iter()
+            .filter(|chunk| chunk.max_timestamp < cutoff)
+            .collect();
 
         if old_chunks.is_empty() {
             return Ok(());
